@@ -418,6 +418,10 @@ IMPLICIT_SITES = [
     ("_actions._ActionSubCommands.get_subcommands", VE,
      "[huge-int] the `expected subcommand to be one of` message renders a >4300-digit int given as the sub-command name",
      {"shape": "subcommands", "entry": "parse_string", "input": "subcommand: 0x" + "f" * 5000 + "\n"}),
+    ("_typehints.adapt_classes_any", AE,
+     "[any-spec] type Any: a class_path mapping whose init_args is a non-empty non-mapping ({class_path: C, init_args: 3}): "
+     "init_args.__dict__ -> 'int' object has no attribute '__dict__' (the surrounding try only covers adapt_class_type)",
+     {"shape": "basic", "entry": "parse_env", "input": {"APP_ANY": "{class_path: calendar.Calendar, init_args: 3}"}}),
     ("_actions._ActionPrintConfig.__call__", "builtins.IndexError",
      "argparse hands `--print_config=--` to the action as the empty list: value[0] -> list index out of range",
      {"shape": "basic", "entry": "parse_args", "input": ["--print_config=--"]}),
@@ -474,6 +478,7 @@ FINDING_KEYS = {
     26: "parse-object-non-mapping",
     27: "huge-int-rendering",
     28: "cwd-deleted",
+    29: "any-class-spec-init-args-not-mapping",
 }
 # key -> [(function, class or superclass, kind prefix, modes)]; modes: "t" = only when exit_on_error=True, "f" = only
 # when False, "tf" = both. A site is a finding site only if it ESCAPES an entry point and its class is not the
@@ -505,6 +510,7 @@ FINDING_SITES = {
     "any-class-path-override": [("_typehints.ActionTypeHint.__call__", AE, "implicit", "tf")],
     "registered-type-arithmetic-error": [("typing.RegisteredType.deserializer", "builtins.ArithmeticError", "implicit: [registered]", "tf")],
     "yaml-timestamp-tag": [("_loaders_dumpers.yaml_load", AE, "implicit: [tag]", "tf")],
+    "any-class-spec-init-args-not-mapping": [("_typehints.adapt_classes_any", AE, "implicit: [any-spec]", "tf")],
     "parse-object-non-mapping": [("_core.ArgumentParser._apply_actions", AE, "implicit: [non-mapping]", "tf")],
     "huge-int-rendering": [("_actions._ActionPrintConfig.print_config_if_requested", VE, "implicit: [huge-int]", "tf"),
                            ("_core.ArgumentParser._check_value_key", VE, "implicit: [huge-int]", "tf"),
